@@ -13,7 +13,7 @@ LEVEL = 'exploration'
 BUDGET = {'quick': 1500, 'thorough': 6000}
 RULE = ('Hypothesis-generated histories: 1-3 Transform2D and 1-3 Transform3D instances built with default or '
         'generated constructor arguments, 1-4 listeners each subscribed to a generated subset of the three '
-        'change events (callbacks named like the event or renamed; some listeners are instances of ONE probe class, each declaring its events in an __events__ attribute of its own; a third of the listeners are falsy objects - empty collections) on a generated subset of the transforms, then listeners subscribing / unsubscribing in between and assignments (also augmented +=) to '
+        'change events (callbacks named like the event or renamed; some listeners belong to a family of classes built with the event_handler decorator (a base declaring one event, two subclasses declaring one more each, only the declared callbacks defined); some are instances of ONE probe class, each declaring its events in an __events__ attribute of its own; a third of the listeners are falsy objects - empty collections) on a generated subset of the transforms, then listeners subscribing / unsubscribing in between and assignments (also augmented +=) to '
         'position / rotation / scale with 2D rotations concentrated outside [0, 360) (negative, > 360, exact '
         'multiples of 360, tiny, large, ints and floats) and vectors given as Vec2/Vec3 or plain tuples. Oracle: '
         'after each assignment the property reads back the assigned value (2D rotation: value % 360.), exactly '
@@ -94,8 +94,28 @@ def run_case(case):
         return type('Probe', (), ns)
     probe_class = make_probe_class()
 
+    def make_family():
+        # listener classes built with the library's decorator, as game code does: a base declaring one event and two
+        # subclasses each declaring one more; every class defines only the callbacks it declares
+        def cb_for(e):
+            def cb(self, *a, _e=e):
+                t = current['t']
+                log.append((self.ix, _e, a, getattr(t, _e[3:-7]) if t is not None else None))
+            return cb
+        base = desper.event_handler(EVENTS[0])(type('FamBase', (), {EVENTS[0]: cb_for(EVENTS[0])}))
+        sub1 = desper.event_handler(EVENTS[1])(type('FamRot', (base,), {EVENTS[1]: cb_for(EVENTS[1])}))
+        sub2 = desper.event_handler(EVENTS[2])(type('FamScale', (base,), {EVENTS[2]: cb_for(EVENTS[2])}))
+        return [(base, {EVENTS[0]}), (sub1, {EVENTS[0], EVENTS[1]}), (sub2, {EVENTS[0], EVENTS[2]})]
+    family = make_family()
+
     def make_listener(ix, mask, reactive=False, renamed=False):
         evs = [e for i, e in enumerate(EVENTS) if mask >> i & 1]
+        if not reactive and not renamed and (mask + ix) % 5 == 2:
+            cls, declared_evs = family[mask % 3]
+            inst = cls()
+            inst.ix = ix
+            facts['listener_of_a_decorated_class_family'] += 1
+            return inst, set(declared_evs)
         if not reactive and not renamed and (mask + ix) % 3 == 1:
             facts['listener_declaring_its_events_on_the_instance'] += 1
             return probe_class(ix, evs), set(evs)
@@ -157,7 +177,10 @@ def run_case(case):
             facts['listener_with_renamed_callbacks'] += 1
         on = [ti for ti in range(len(transforms)) if spec['on'] >> ti & 1] or [li % len(transforms)]
         for ti in on:
-            transforms[ti][0].add_handler(lst)
+            try:
+                transforms[ti][0].add_handler(lst)
+            except Exception as exc:
+                viol('add_handler_raised', listener=type(lst).__name__, exception=repr(exc))
             for e in evs:
                 subs[(ti, e)].add(li)
         if len(on) >= 2:
@@ -206,7 +229,10 @@ def run_case(case):
                     lst, evs = make_listener(nli, 1 + (k + p) % 7, False, k % 3 == 0)
                     listeners.append(lst)
                     listener_events.append(evs)
-                    t.add_handler(lst)
+                    try:
+                        t.add_handler(lst)
+                    except Exception as exc:
+                        viol('add_handler_raised', listener=type(lst).__name__, exception=repr(exc))
                     for e in evs:
                         subs[(ti, e)].add(nli)
                     window.append(nli)
